@@ -35,6 +35,10 @@ CONTEXTS = [
 ]
 HEAD_CONTEXTS = ['&tel {{ {F} }}.', '&tel {{ {F} }} :- a.', '#program initial.\n&tel {{ {F} }} :- not b.', '#program final.\n&tel {{ {F} }}.', '&tel {{ {F} ; b }}.', '&tel {{ {F} }} > 2.', 'a ; &tel {{ {F} }}.',
                  '{{ &tel {{ {F} }} }}.', 'not &tel {{ {F} }}.', '&tel {{ {F} }} :- &tel {{ a }}.']
+# non-ground head formulas: variables of the rule in n-fold prefixes, nested with numeric offsets and with each other
+NONGROUND_HEAD = ['1 > (N > a)', 'N > (1 > a)', 'a ;> (N > b)', 'N > (N > a)', '(N+1) > a', 'N >: a | 2 > b', '> (N >: (> a))', 'N > a >? b', '(N-1) > a', 'N > (M > a)', '(N+M) >: a',
+                  '2 > (N > (1 > a))', 'N > a & M > b', 'a >* (N > b)', '>? (N > a)', 'N > (> a | 2 > b)', 'N > p(N)', '> p(N+1)', 'N > p(M) ;> q(N)', '(N-2) > a', 'N > (0 > a)', '0 > (N > a)']
+NONGROUND_CONTEXTS = ['&tel {{ {F} }} :- d(N), d(M).', '#program initial.\n&tel {{ {F} }} :- d(N), M = N+1.', '#program dynamic.\n&tel {{ {F} }} :- d(N), d(M), not a.']
 PROGRAM_LEVEL = [
     '#program foo.\na.', '#program foo(x).\na.', '#program initial(t).\na.', '#program always. #program final. #program dynamic.', 'a_.', "_a'.", "'_a.", '_a_.', "a_' .", '__a.', "a :- 'b_.", '-_a.', '- -a.',
     "'a.", "_a.", "a' ; b.", "{ a' }.", "a :- b'.", ":- a'''''.", "not a'.", "a' :- b'.", "#external a'.", "#show a'/0.", "#show 'a/0.", '#show.', '#show a : b.', '#show foo(a) : a.', '#project a/0.',
@@ -57,6 +61,9 @@ def inputs(ctx):
     for f in WEIRD_DEL:
         for c in (CONTEXTS if not ctx.quick else rng.sample(CONTEXTS, 4)):
             out.append(('del-body', base + c.format(T='del', F=f) + '\n'))
+    for f in NONGROUND_HEAD:
+        for c in (NONGROUND_CONTEXTS if not ctx.quick else rng.sample(NONGROUND_CONTEXTS, 2)):
+            out.append(('tel-head-nonground', base + 'd(1..2).\n' + c.format(F=f) + '\n'))
     for p in PROGRAM_LEVEL:
         out.append(('program', base + p + '\n'))
         out.append(('program', '#program final.\n' + p + '\n'))
@@ -121,7 +128,7 @@ def cli(args, text, timeout=30):
 
 OPTION_CASES = [
     (['--imax=x'], 'reject'), (['--imin=x'], 'reject'), (['--imax=-1'], 'reject'), (['--imin=-1'], 'reject'), (['--istop=foo'], 'reject'), (['--imax=1.5'], 'reject'), (['--imin='], 'reject'),
-    (['--imax=3', '--imin=1', '--istop=unsat'], 'accept'), (['--imax='], 'accept-bounded'), (['--istop=SAT', '--imax=2'], 'accept'), (['--istop=Unknown', '--imax=2'], 'accept'), (['--imin=0', '--imax=0'], 'accept'),
+    (['--imax=0'], 'accept-unsat'), (['--imax=0', '--imin=2'], 'accept-unsat'), (['--imax=1', '--imin=3'], 'accept-unsat'), (['--imax=3', '--imin=1', '--istop=unsat'], 'accept'), (['--imax='], 'accept-bounded'), (['--istop=SAT', '--imax=2'], 'accept'), (['--istop=Unknown', '--imax=2'], 'accept'), (['--imin=0', '--imax=0'], 'accept'),
 ]
 
 
@@ -164,8 +171,13 @@ def run(ctx):
                          'input': {'cli_text': t, 'args': ['--imax=2', '--istop=unknown', '0'], 'expect': 'accept'}})
             break
     for args, exp in OPTION_CASES:
-        rc, so, se = cli(args + (['--imax=2'] if exp == 'accept-bounded' and False else []), 'a.\n:- a.\n' if exp == 'accept-bounded' else 'a.\n', timeout=8 if exp == 'accept-bounded' else 30)
+        rc, so, se = cli(args + (['--imax=2'] if exp == 'accept-bounded' and False else []), 'a.\n:- a.\n' if exp in ('accept-bounded', 'accept-unsat') else 'a.\n', timeout=8 if exp == 'accept-bounded' else 30)
         cli_n += 1
+        if exp == 'accept-unsat':
+            # a bound on the number of steps ends the run also when the stop criterion is never met (no endless loop)
+            if rc is None:
+                uniq.append({'key': 'c15:option-hang:%s' % ' '.join(args), 'what': 'command line with %s on an unsatisfiable program does not terminate within 30 s' % args, 'input': {'cli_text': 'a.\n:- a.\n', 'args': args, 'expect': 'accept'}})
+            continue
         if exp == 'accept-bounded':
             continue      # imax empty = unbounded; with an unsatisfiable program this loops by design, only checked not to crash at start-up
         bad = None
